@@ -279,6 +279,12 @@ def edge_objects(c_sys, kind, m=2, flag=True):
             elif kind == "qmpt":
                 gr = [[p] for p in groups]
                 out.append(TrueObj(kind, lab, MProcess(c_sys, [hs_of_kraus(B, ks) for ks in gr], **kw), groups=gr))
+        if kind == "qmpt" and name == "z":
+            # all outcomes carry the SAME array object (equal weights of the identity channel): a legitimate list of HS
+            # matrices in which "the last element" cannot be recognised by object identity
+            h = hs_of_kraus(B, [np.sqrt(1.0 / m) * np.eye(d, dtype=complex)])
+            gr = [[np.sqrt(1.0 / m) * np.eye(d, dtype=complex)] for _ in range(m)]
+            out.append(TrueObj(kind, "edge-shared-array", MProcess(c_sys, [h] * m, **kw), groups=gr))
         if kind == "qmpt" and m >= 3 and d == 2:
             # first outcome: |0> detected; the second basis state detected and kept / flipped with probability 1/2 each
             flip = u @ np.array([[0, 1], [1, 0]], dtype=complex) @ u.conj().T
